@@ -35,6 +35,4 @@ def run(ctx):
         ctx.sample(tr[:12])
     for tr in traces:
         tr[0]["seed"] = ctx.seed
-    CH = 5000
-    for i in range(0, len(traces), CH):
-        vlib.check_traces(ctx, traces[i:i + CH], "pp%d" % (i // CH), module="TraceEchPipe", cfg="TraceEchPipe.cfg", specname="EchPipe.tla")
+    vlib.check_traces_chunks(ctx, traces, 400 if ctx.quick else 4000, "pp", module="TraceEchPipe", cfg="TraceEchPipe.cfg", specname="EchPipe.tla")
